@@ -469,6 +469,8 @@ def _corrupt(ev):
             e["declared"] -= 1
         elif op == "schema_tree" and "key_owned" in e:
             e["key_owned"][0] ^= 1
+        elif op == "schema_big" and "key_owned" in e:
+            e["decoded_rest"] = 7        # a decode that left bytes of a long array unread
         elif op == "conform" and "key_type" in e:
             e["key_type"][0] ^= 1
         elif op == "dyn" and e["dyn_bytes"].get("ok") == 1 and e["dyn_json"].get("ok") == 1:
@@ -561,6 +563,8 @@ def _classes(ev):
         out.append(f"alloc:{ev.get('entry')}:{ev.get('ty')}")
     elif op == "schema_tree":
         out.append(f"schema_tree:{ev.get('tree', {}).get('k')}")
+        if ev.get("kind") == "deep":
+            out.append("schema_tree:deep")
     elif op == "conform":
         out.append(f"conform:{ev.get('ty')}")
     elif op == "maxsize":
